@@ -86,10 +86,14 @@ def config(rng, avoid=()):
         if "smp-selectors" in avoid:
             sel = "ompi"
         cfg.append("--cfg=smpi/coll-selector:%s" % sel)
+    det = 65536
     if rng.random() < 0.35:
-        cfg.append("--cfg=smpi/send-is-detached-thresh:%d" % rng.choice([0, 1000, 65535, 65537, 1000000]))
+        det = rng.choice([0, 1000, 65535, 65537, 1000000])
+        cfg.append("--cfg=smpi/send-is-detached-thresh:%d" % det)
     if rng.random() < 0.3:
-        cfg.append("--cfg=smpi/async-small-thresh:%d" % rng.choice([1, 1000, 65536, 100000]))
+        ok = [x for x in [1, 1000, 65536, 100000] if x <= det]          # SMPI refuses async-small-thresh > send-is-detached-thresh
+        if ok:
+            cfg.append("--cfg=smpi/async-small-thresh:%d" % rng.choice(ok))
     if rng.random() < 0.3:
         cfg.append("--cfg=smpi/test:%s" % rng.choice(["0", "3e-5", "1e-3"]))
     if rng.random() < 0.25:
@@ -132,6 +136,7 @@ class Prog:
 
     def __init__(self, rng, np_, exclude=(), avoid=()):
         self.rng, self.np, self.exclude, self.avoid = rng, np_, set(exclude), set(avoid)
+        self.nozero = "zero-coll" in self.avoid
         self.events = []          # list of events; an event = list of script lines that must stay together
         self.kinds = {}
         self.pending = [dict() for _ in range(np_)]        # rank -> {slot: (src, dst, tag)}
@@ -215,6 +220,10 @@ class Prog:
             self.emit(a, "sendrecv", c, b, tag, c2, b, tag, dt, dt)
             self.emit(b, "sendrecv", c2, a, tag, c, a, tag, dt, dt)
 
+    def _cc(self, dt, big):
+        c = _count(self.rng, dt, big)
+        return max(1, c) if self.nozero else c
+
     def coll(self, kind=None):
         self.events.append([])
         rng, n = self.rng, self.np
@@ -225,36 +234,36 @@ class Prog:
             self.emit("*", "barrier")
         elif kind == "bcast":
             dt = rng.choice(P2P_DT)
-            self.emit("*", "bcast", _count(rng, dt), root, dt)
+            self.emit("*", "bcast", self._cc(dt, True), root, dt)
         elif kind == "reduce":
             dt = rng.choice(RED_DT)
-            self.emit("*", "reduce", _count(rng, dt), root, dt)
+            self.emit("*", "reduce", self._cc(dt, True), root, dt)
         elif kind in ("allreduce", "scan", "exscan"):
             dt = rng.choice(RED_DT)
-            self.emit("*", kind, _count(rng, dt), dt)
+            self.emit("*", kind, self._cc(dt, True), dt)
         elif kind in ("alltoall", "allgather"):
             dt = rng.choice(P2P_DT)
-            self.emit("*", kind, _count(rng, dt, big=False), dt)
+            self.emit("*", kind, self._cc(dt, False), dt)
         elif kind in ("gather", "scatter"):
             dt = rng.choice(P2P_DT)
-            c = _count(rng, dt, big=False)
+            c = self._cc(dt, False)
             self.emit("*", kind, max(1, c) if "zero-gather-scatter" in self.avoid else c, root, dt)
         elif kind == "alltoallv":
             dt = rng.choice(P2P_DT)
-            m = [[_count(rng, dt, big=False) if rng.random() < 0.8 else 0 for _ in range(n)] for _ in range(n)]
+            m = [[self._cc(dt, False) if rng.random() < 0.8 or self.nozero else 0 for _ in range(n)] for _ in range(n)]
             for r in range(n):
                 self.emit(r, "alltoallv", dt, *(m[r] + [m[j][r] for j in range(n)]))
         elif kind in ("gatherv", "scatterv"):
             dt = rng.choice(P2P_DT)
-            c = [_count(rng, dt, big=False) if rng.random() < 0.8 else 0 for _ in range(n)]
+            c = [self._cc(dt, False) if rng.random() < 0.8 or self.nozero else 0 for _ in range(n)]
             self.emit("*", kind, root, dt, *c)
         elif kind == "allgatherv":
             dt = rng.choice(P2P_DT)
-            c = [_count(rng, dt, big=False) if rng.random() < 0.8 else 0 for _ in range(n)]
+            c = [self._cc(dt, False) if rng.random() < 0.8 or self.nozero else 0 for _ in range(n)]
             self.emit("*", kind, dt, *c)
         elif kind == "reducescatter":
             dt = rng.choice(RED_DT)
-            c = [_count(rng, dt, big=False) if rng.random() < 0.8 else 0 for _ in range(n)]
+            c = [self._cc(dt, False) if rng.random() < 0.8 or self.nozero else 0 for _ in range(n)]
             self.emit("*", kind, dt, *c)
         else:
             raise ValueError(kind)
@@ -307,7 +316,8 @@ def script(events, close=False):
 
 def program(rng, np_, nev, exclude=(), weights=None, avoid=()):
     """avoid: names of known-finding triggers to keep out ("test-key-reuse": never reuse the (src,dst,tag) of a request
-    that was MPI_Test'ed; "zero-gather-scatter": no zero count in gather/scatter)."""
+    that was MPI_Test'ed; "zero-gather-scatter": no zero count in gather/scatter; "zero-coll": no zero count in any
+    collective: several non-default collective algorithms crash online on them, which is C29's business)."""
     p = Prog(rng, np_, exclude, avoid)
     w = weights or rng.choice([(5, 1, 3, 3), (2, 1, 6, 1), (8, 2, 1, 4), (3, 0, 0, 3)])
     for _ in range(nev):
